@@ -216,9 +216,23 @@ def oracle_sequence(case, res, cfg):
     prev_state = st
     ops = case["ops"]
     results = res["results"]
+    real = set(".".join(p) for p, _ in G.all_paths(res["tree"])) if "tree" in res else set()
     for k, (op, r) in enumerate(zip(ops, results)):
         name = op["op"]
         sels = aslist(op.get("selectors"))
+        # the laws quantify over all selectors of the object: an operation on selectors that address existing
+        # properties / elements (outside the marking lists, which the operations themselves rewrite) must not be
+        # refused with InvalidSelectorError -- "after adding, the marking is reported for those selectors"
+        if r.get("err") == "InvalidSelectorError" and sels and not op.get("selectors_tuple") \
+                and all(x in real and x.split(".")[0] not in ("granular_markings", "object_marking_refs") for x in sels):
+            tags = set()
+            for p, _ in G.all_paths(res["tree"]):
+                if ".".join(p) in sels:
+                    tags |= G.classify_path(res["tree"], p)
+            known_class = any(t in tags and cfg.get(DEFECT_TAGS[t][0]) == DEFECT_TAGS[t][1] for t in DEFECT_TAGS)
+            if not known_class:
+                out.append(("%s(%s, %s) raises InvalidSelectorError although every selector addresses an existing value of the object" % (
+                    name, op.get("marking"), op.get("selectors")), k, None))
         if name in MUTATORS:
             if "state" not in r:
                 continue                                     # raised: nothing to judge (the object is unchanged)
@@ -415,8 +429,13 @@ def gen_ops(rng, valid, invalid, st, v21_or_dict, is_obj, max_ops):
     # selectors that are related on the tree or by name prefix get extra weight
     related = [s for s in valid if any(t != s and (t.startswith(s) or s.startswith(t)) for t in valid)]
 
+    prio = [s for s in valid if G.priority_selector(s)]
+    prio = sorted(prio, key=lambda x: -x.count("."))[:6] + prio          # the deepest ones weigh more
+
     def pick_sel():
         r = rng.random()
+        if prio and rng.random() < 0.2:
+            return rng.choice(prio)      # order-/depth-sensitive paths: two-digit indices, sibling-prefix keys, deep nesting
         if related and r < 0.45:
             return rng.choice(related)
         if r < 0.9 or not invalid:
